@@ -54,6 +54,7 @@ REC = Recorder()
 def reset_recorder():
     global REC
     REC = Recorder()
+    _NTH.clear()
     return REC
 
 
@@ -137,6 +138,7 @@ async def _interp(ctx, ev, sp, prog):
     bid = r.new_bid()
     uid = _ev_uid(ev)
     v = _ev_v(ev)
+    _NTH[step] = _NTH.get(step, 0) + 1
     rcd = r.add("enter", step=step, uid=uid, v=v, att=att, bid=bid, type=type(ev).__name__,
                 lastexc=(type(ri.last_exception).__name__ + ":" + str(ri.last_exception)) if ri.last_exception is not None else None,
                 elapsed=ri.elapsed_seconds)
@@ -157,12 +159,18 @@ async def _interp(ctx, ev, sp, prog):
     except asyncio.CancelledError:
         how = "cancel"
         if sp.get("stream_on_cancel"):
-            # user code that reports its own shutdown: `finally: ctx.write_event_to_stream(...)`
+            # user code that reports its own shutdown: `finally: ctx.write_event_to_stream(...)`, possibly after some async cleanup
             from vf import events as E
 
-            e = E.EvS(uid=r.new_uid(), v=f"{v}>{step}.cancelled")
-            r.add("emit", how="stream", step=step, bid=bid, att=att, uid=e.get("uid"), v=e.get("v"), type="EvS", target=None, parent=uid)
-            ctx.write_event_to_stream(e)
+            soc = sp["stream_on_cancel"]
+            try:
+                if soc is not True and soc:
+                    await asyncio.sleep(float(soc))  # flush buffers ...
+            finally:
+                # ... and report, even if the flush itself is interrupted
+                e = E.EvS(uid=r.new_uid(), v=f"{v}>{step}.cancelled")
+                r.add("emit", how="stream", step=step, bid=bid, att=att, uid=e.get("uid"), v=e.get("v"), type="EvS", target=None, parent=uid)
+                ctx.write_event_to_stream(e)
         raise
     except BaseException as e:  # noqa: BLE001
         how = "raise:" + type(e).__name__
@@ -175,8 +183,16 @@ async def _interp(ctx, ev, sp, prog):
               out_type=(type(out).__name__ if out is not None else None))
 
 
+_NTH = {}  # step name -> entries so far in this case (reset with the recorder)
+
+
 def _val(spec, ev, att, default=None):
     """Resolve a parameter: literal, {'from': field} read from the event, list indexed by attempt."""
+    if isinstance(spec, dict) and "nth" in spec:
+        # chosen by how many times this step has been entered so far (equal events cannot carry their own latency)
+        seq = spec["nth"]
+        i = max(0, _NTH.get(spec.get("step", "?"), 1) - 1)
+        return seq[min(i, len(seq) - 1)] if seq else default
     if isinstance(spec, dict) and "from" in spec:
         spec = ev.get(spec["from"], default)
     if isinstance(spec, list):
@@ -396,6 +412,7 @@ def build_workflow(spec):
     for sp in spec["steps"]:
         consumed.update(sp.get("in", []))
     ns = {}
+    late = []
     for sp in spec["steps"]:
         name = sp["name"]
         is_handler = sp.get("handler") is not None
@@ -405,8 +422,13 @@ def build_workflow(spec):
         ret_types = [E.BY_NAME[t] for t in prod] + [type(None)]
 
         def make(sp_):
-            async def fn(self, ctx, ev):
-                return await _interp(ctx, ev, sp_, spec)
+            if sp_.get("late"):
+                # free function, attached to the class with add_step AFTER an instance exists (make_instance)
+                async def fn(ctx, ev):
+                    return await _interp(ctx, ev, sp_, spec)
+            else:
+                async def fn(self, ctx, ev):
+                    return await _interp(ctx, ev, sp_, spec)
 
             return fn
 
@@ -420,8 +442,12 @@ def build_workflow(spec):
         else:
             pol = build_policy(sp["retry"]) if sp.get("retry") else None
             fn = step(num_workers=sp.get("nw", 1), retry_policy=pol)(fn)
-        ns[name] = fn
+        if sp.get("late"):
+            late.append(fn)
+        else:
+            ns[name] = fn
     cls = types.new_class("VfProgram", (Workflow,), {}, lambda d: d.update(ns))
+    cls._vf_late = late
     return cls
 
 
@@ -433,4 +459,9 @@ def make_instance(spec, **overrides):
     if spec.get("num_concurrent_runs") is not None:
         kw["num_concurrent_runs"] = spec["num_concurrent_runs"]
     kw.update(overrides)
-    return cls(**kw)
+    if not cls._vf_late:
+        return cls(**kw)
+    inst = cls(**kw)
+    for fn in cls._vf_late:
+        cls.add_step(fn)  # the workflow is assembled further after the instance was constructed
+    return inst
